@@ -161,8 +161,8 @@ func (w *webTransport) send(packets []*packet.Packet) {
 					}
 					return
 				}
-				return
-
+				// the pre-encoded frame has been written: go on with the next packet
+				continue
 			}
 		}
 
